@@ -53,7 +53,7 @@ PROFILES = [
     ("atv4k_tvos15_no_unified_advertiser", "AppleTV6,2", "15.0", "19J346", "v2_full_no_unified_adv", HAP, COMP, "auto"),
     ("homepod_transient", "AudioAccessory1,1", "15.0", "19J346", "v2_audio", None, None, "auto"),
     ("homepod_mini_hap", "AudioAccessory5,1", "16.0", "20J373", "v2_audio", HAP, COMP, "auto"),
-    ("homepod_gen2_tunnel_forced", "AudioAccessory6,1", "17.0", "21J354", "v2_audio", None, None, "force"),
+    ("homepod_gen2_tunnel_forced", "AudioAccessory6,1", "17.0", "21J354", "v2_audio", None, COMP, "force"),
     ("airport_express", "AirPort10,115", "7.8.1", "", "v1_audio", None, None, "auto"),
     ("third_party_speaker", "Sonos One", "1.0", "", "v2_audio", None, None, "auto"),
     ("mac", "MacBookPro16,1", "12.0", "21A559", "v2_full", None, None, "auto"),
@@ -232,20 +232,50 @@ def fres_of(asked, state):
     return None
 
 
-async def drive_real(t, mode, orders=None, only_features=None):
-    """mode 'real': the real Features objects answer; mode 'worst': Features stubs that report every
-    feature as Available (the over-approximation of the model made concrete).  All 31 subsets, two
-    connect orders each, every feature; every member of a reported feature is called."""
+PYATV_ORDER = ["AirPlay", "Companion", "DMAP", "MRP", "RAOP"]      # order of pyatv.protocols.PROTOCOLS
+
+
+def profile_orders(units, rng, full):
+    """Lists of unit ids to add to the device object.  full: every non-empty set of configured services
+    (31), each adding everything its setup() yielded - in the order pyatv.connect adds them or shuffled -
+    plus arbitrary sub-lists of the yielded SetupData (with a duplicate).  Otherwise a small sample."""
+    by_src = {p: [u["id"] for u in units if u["src"] == p] for p in PROTOS}
+    orders = []
+    for n, S in enumerate(c01.subsets()):
+        srcs = [p for p in PYATV_ORDER if p in S]
+        if n % 2:
+            rng.shuffle(srcs)
+        ids = [i for p in srcs for i in by_src[p]]
+        if ids:
+            orders.append(ids)
+    allids = [u["id"] for u in units]
+    for _ in range(12):
+        ids = rng.sample(allids, rng.randint(1, len(allids)))
+        if rng.random() < 0.3:
+            ids.append(rng.choice(ids))
+        orders.append(ids)
+    if not full:
+        orders = rng.sample(orders, 5)
+    return [list(x) for x in dict.fromkeys(map(tuple, orders))]
+
+
+async def drive_real(t, mode, pidx, orders, only_features=None):
+    """One device profile.  mode 'real': the real Features objects answer; mode 'worst': Features stubs that
+    report every feature as Available (the over-approximation of the model made concrete).  For every order
+    (list of unit ids) a device object is assembled from the real objects, every feature is asked and every
+    member of a reported feature is called."""
     from pyatv import interface
     from pyatv.const import FeatureName, FeatureState
     c01.quiet()
     log = []
-    sds, cleanup = await c01.real_setups()
+    prof = PROFILES[pidx]
+    units, cleanup = await profile_units(prof)
     out = []
     try:
         off = {}
-        for p in PROTOS:
-            ifs = dict(sds[p].interfaces)
+        for u in units:
+            sd, p = u["sd"], u["proto"]
+            ifs = dict(sd.interfaces)
             for k, inst in list(ifs.items()):
                 if k is interface.Features:
                     if mode == "real":
@@ -254,15 +284,10 @@ async def drive_real(t, mode, orders=None, only_features=None):
                         ifs[k] = c01.make_features({f.name: FeatureState.Available for f in FeatureName}, log, p)
                 else:
                     swap_class(inst, k, p, k.__name__, log)
-            off[p] = await offline(sds[p], ifs)
-        rng_orders = []
-        for S in c01.subsets():
-            rng_orders.append(list(S))
-            if len(S) > 1:
-                rng_orders.append(list(reversed(S)))
-                rng_orders.append(S[1:] + S[:1] + [S[-1]])       # rotated, with a duplicate
-        for order in (orders or rng_orders):
-            atv = await c01.build_facade([off[p] for p in order])
+            off[u["id"]] = await offline(sd, ifs)
+        label = {u["id"]: "%s>%s" % (u["src"], u["proto"]) for u in units}
+        for order in orders:
+            atv = await c01.build_facade([off[i] for i in order])
             gate = atv.features.in_state(FeatureState.Available, FeatureName.PlayUrl)
             for f in t["features"]:
                 if only_features and f["name"] not in only_features:
@@ -270,7 +295,8 @@ async def drive_real(t, mode, orders=None, only_features=None):
                 del log[:]
                 info = atv.features.get_feature(getattr(FeatureName, f["name"]))
                 asked = [e[0] for e in log if e[1] == "Features"]
-                rec = {"order": order, "feature": f["name"], "index": f["index"], "state": info.state.name,
+                rec = {"profile": prof[0], "pidx": pidx, "order": order, "added": [label[i] for i in order],
+                       "feature": f["name"], "index": f["index"], "state": info.state.name,
                        "asked": asked, "gate": gate, "calls": []}
                 if info.state != FeatureState.Unsupported:
                     for (i, m) in dict.fromkeys(map(tuple, f["members"])):
@@ -303,8 +329,8 @@ def judge(rec):
             if c["relay"] is True:
                 continue       # an implementation exists and is routed to; the facade's own feature gate refused
             bad.append(("C13:not-backed:%s" % rec["feature"],
-                        "features reports %s as %s with %s connected, but %s.%s fails with NotSupportedError: no connected protocol implements it"
-                        % (rec["feature"], rec["state"], rec["order"], c["iface"], c["member"])))
+                        "device profile %s, SetupData added %s: features reports %s as %s, but %s.%s fails with NotSupportedError: no set-up protocol implements it"
+                        % (rec["profile"], rec["added"], rec["feature"], rec["state"], c["iface"], c["member"])))
         elif c["exc"] is None and not c["called"] and not (c["iface"] == "PushUpdater"):
             bad.append(("C13:not-routed:%s" % rec["feature"], "%s.%s was executed by nobody" % (c["iface"], c["member"])))
     return bad
@@ -368,11 +394,14 @@ def run(ctx):
     ctx.note("build done %.1fs" % (time.time() - ctx.t0))
     if ctx.thorough:
         ctx.coqchk()
-    ctx.rule = ("(a) real FacadeAppleTV assembled from the objects the five real setup() generators register (classes "
-                "swapped for recording subclasses with the same override table), all 31 subsets x up to 3 connect orders "
-                "(reversed, rotated with a duplicate) x every FeatureName: answer of features.get_feature, and every member "
-                "of every reported feature called through the device object; once with the real Features objects, once "
-                "with Features stubs reporting everything Available (worst case of the dynamic states); (b) random tables "
+    ctx.rule = ("(a) per device profile (14: service properties / credentials / tunnel setting): real FacadeAppleTV assembled "
+                "from the objects every SetupData yielded by the five real setup() generators registers (classes swapped for "
+                "recording subclasses with the same override table); orders = all 31 sets of configured services (in the "
+                "order pyatv.connect adds them, or shuffled) + random sub-lists of the yielded SetupData with duplicates; "
+                "quick tier: complete for one profile per distinct table set, 5 sampled orders for the others; x every "
+                "FeatureName: answer of features.get_feature, and every member of every reported feature called through the "
+                "device object; once with the real Features objects, once with Features stubs reporting everything "
+                "Available (worst case of the dynamic states); (b) random tables "
                 "with stub Features/PushUpdater objects incl. falsy and missing Features objects and duplicate protocols. "
                 "non-trivial = the feature is reported (state other than Unsupported); distinct by canonical case")
     if t is None:
@@ -387,42 +416,54 @@ def run(ctx):
             ctx.violation(key, what, r)
     # ---------------------------------------------------------------- (a) real objects
     fcases, fmeta, icases, imeta = [], [], [], []
-    for mode in ("real", "worst"):
-        recs = vloop.run(drive_real, t, mode)
-        for rec in recs:
-            ctx.traces += 1
-            reported = rec["state"] != "Unsupported"
-            ctx.case((mode, tuple(rec["order"]), rec["feature"], rec["state"], tuple(rec["asked"])), nontrivial=reported,
-                     sample={"mode": mode, "connected": rec["order"], "feature": rec["feature"], "state": rec["state"],
-                             "asked": rec["asked"], "calls": rec["calls"]} if reported else None)
-            ctx.count("%s:%s" % (mode, rec["state"]))
-            for key, what in judge(rec):
-                ctx.violation(key, what, {"kind": "real", "mode": mode, "connected_in_order": rec["order"],
-                                          "feature": rec["feature"], "state": rec["state"], "calls": rec["calls"]})
-            obs = fres_of(rec["asked"], rec["state"])
-            if obs is None:
-                ctx.tie_broken("correspondence:features-unexpected-observation", json.dumps(rec))
+    sigs = {}
+    for k, pr in enumerate(t["profiles"]):
+        sigs.setdefault(json.dumps(pr["units"], sort_keys=True), k)
+    reps = set(sigs.values())          # one profile per distinct table set is driven completely in the quick tier
+    ctx.extra["profiles"] = [pr["name"] for pr in t["profiles"]]
+    ctx.extra["profiles_driven_completely"] = [t["profiles"][k]["name"] for k in sorted(reps)] if not ctx.thorough else "all"
+    for pidx, pr in enumerate(t["profiles"]):
+        full = ctx.thorough or pidx in reps
+        orders = profile_orders(pr["units"], ctx.rng, full)
+        for mode in ("real", "worst"):
+            if mode == "worst" and not full:
                 continue
-            fcases.append("(%s, %d, %s)" % (coq_protos(rec["order"]), rec["index"], obs))
-            fmeta.append(rec)
-            if mode == "worst" and rec["asked"] and rec["state"] != "Available":
-                ctx.tie_broken("correspondence:worst-case-stub", json.dumps(rec))
-            for c in rec["calls"]:
-                cr = c01.coq_callres(c["called"], c["exc"])
-                ctx.count("call:" + ("executed" if c["called"] else str(c["exc"])))
-                if cr is None:
-                    ctx.tie_broken("correspondence:invoke-unexpected-observation", json.dumps(rec))
+            recs = vloop.run(drive_real, t, mode, pidx, orders)
+            for rec in recs:
+                ctx.traces += 1
+                reported = rec["state"] != "Unsupported"
+                ctx.case((mode, rec["profile"], tuple(rec["order"]), rec["feature"], rec["state"], tuple(rec["asked"])), nontrivial=reported,
+                         sample={"mode": mode, "profile": rec["profile"], "added": rec["added"], "feature": rec["feature"],
+                                 "state": rec["state"], "asked": rec["asked"], "calls": rec["calls"]} if reported else None)
+                ctx.count("%s:%s" % (mode, rec["state"]))
+                ctx.count("profile:" + rec["profile"])
+                for key, what in judge(rec):
+                    ctx.violation(key, what, {"kind": "real", "mode": mode, "profile": rec["profile"], "added": rec["added"],
+                                              "feature": rec["feature"], "state": rec["state"], "calls": rec["calls"]})
+                obs = fres_of(rec["asked"], rec["state"])
+                if obs is None:
+                    ctx.tie_broken("correspondence:features-unexpected-observation", json.dumps(rec))
                     continue
-                icases.append("(%s, %s, %s%%string, %s, %s)" % (coq_protos(rec["order"]), ICOQ[c["iface"]], coq_str(c["member"]),
-                                                          common.cbool(rec["gate"]), cr))
-                imeta.append({"connected": rec["order"], "feature": rec["feature"], "call": c, "gate": rec["gate"], "mode": mode})
-    ctx.exhaustive = True
+                ids = "[" + "; ".join(str(i) for i in rec["order"]) + "]"
+                fcases.append("(%d, %s, %d, %s)" % (pidx, ids, rec["index"], obs))
+                if mode == "worst" and rec["asked"] and rec["state"] != "Available":
+                    ctx.tie_broken("correspondence:worst-case-stub", json.dumps(rec))
+                for c in rec["calls"]:
+                    cr = c01.coq_callres(c["called"], c["exc"])
+                    ctx.count("call:" + ("executed" if c["called"] else str(c["exc"])))
+                    if cr is None:
+                        ctx.tie_broken("correspondence:invoke-unexpected-observation", json.dumps(rec))
+                        continue
+                    icases.append("(%d, %s, %s, %s%%string, %s, %s)" % (pidx, ids, ICOQ[c["iface"]], coq_str(c["member"]),
+                                                                 common.cbool(rec["gate"]), cr))
+    ctx.exhaustive = bool(ctx.thorough)
     ctx.note("real objects driven %.1fs" % (time.time() - ctx.t0))
-    c01.run_cases_in_coq(ctx, "features", HEADER, "list proto * feature * fres", "check_real_feature",
-                         list(dict.fromkeys(fcases)), lambda b: {"case": list(dict.fromkeys(fcases))[b]})
+    funiq = list(dict.fromkeys(fcases))
+    c01.run_cases_in_coq(ctx, "features", HEADER, "nat * list nat * feature * fres", "check_real_feature",
+                         funiq, lambda b: {"case": funiq[b], "profiles": ctx.extra["profiles"]}, per=4000)
     uniq = list(dict.fromkeys(icases))
-    c01.run_cases_in_coq(ctx, "invoke", HEADER, "list proto * iface * string * bool * callres", "check_real_invoke",
-                         uniq, lambda b: {"case": uniq[b]})
+    c01.run_cases_in_coq(ctx, "invoke", HEADER, "nat * list nat * iface * string * bool * callres", "check_real_invoke",
+                         uniq, lambda b: {"case": uniq[b], "profiles": ctx.extra["profiles"]}, per=4000)
     ctx.note("real objects compared %.1fs" % (time.time() - ctx.t0))
     # ---------------------------------------------------------------- (b) arbitrary tables
     n = 1500 if not ctx.thorough else 20000
@@ -461,15 +502,23 @@ def run(ctx):
 
 
 async def replay_one(r, t, verbose=True):
-    """Re-run one replay dict; returns list of (key, what)."""
-    from pyatv.const import FeatureName
-    recs = await drive_real(t, r.get("mode", "real"), [r["connected_in_order"]], [r["feature"]])
+    """Re-run one replay dict {profile, added: ["src>proto", ...], feature, mode}; returns list of (key, what)."""
+    names = [pr["name"] for pr in t["profiles"]]
+    if r.get("profile") not in names:
+        return [("C13:replay:unknown-profile", str(r.get("profile")))]
+    pidx = names.index(r["profile"])
+    lab = {"%s>%s" % (u["src"], u["proto"]): u["id"] for u in t["profiles"][pidx]["units"]}
+    order = [lab[x] for x in r["added"] if x in lab]
+    if len(order) != len(r["added"]):
+        if verbose:
+            print("profile %s no longer yields %s" % (r["profile"], [x for x in r["added"] if x not in lab]))
+    recs = await drive_real(t, r.get("mode", "real"), pidx, [order], [r["feature"]])
     out = []
     for rec in recs:
-        if rec["order"] == r["connected_in_order"] and rec["feature"] == r["feature"]:
-            if verbose:
-                print("connected=%s feature=%s state=%s asked=%s calls=%s" % (rec["order"], rec["feature"], rec["state"], rec["asked"], rec["calls"]))
-            out += judge(rec)
+        if verbose:
+            print("profile=%s added=%s feature=%s state=%s asked=%s calls=%s" % (
+                rec["profile"], rec["added"], rec["feature"], rec["state"], rec["asked"], rec["calls"]))
+        out += judge(rec)
     return out
 
 
@@ -480,6 +529,7 @@ def replay(ctx, path):
         return 1
     r = d.get("replay", d)
     t = vloop.run(c01.collect, False)
+    t["profiles"] = vloop.run(collect_profiles)
     v = vloop.run(replay_one, r, t)
     print("property-errors=%s" % v)
     return 1 if v else 0
